@@ -248,7 +248,7 @@ def d2_plan(tier, fam):
     """-> list of (sub, description, [case ids])"""
     import itertools
     plans = []
-    MPS = (0, 5, 8, 40)
+    MPS = (0, 5, 8, 40, 199)
     for k in fam['kinds']:
         kind = k['kind']
         sizes = [d['size'] for d in k['dims']]
@@ -270,10 +270,10 @@ def d2_plan(tier, fam):
             if kind == 'bigpolygon':
                 members = [m for m in members if m in ((1, 0, 0), (3, 1, 1))]
             for n, m in enumerate(members):
-                ids.append(cid(m, n % 12, MPS[n % 4] if polyish else 0))
+                ids.append(cid(m, n % 12, MPS[n % 5] if polyish else 0))
             desc = 'every member of the %s family (%s), library configuration (units x name parity x cell order) cycled' % (kind, dimtxt)
             if polyish:
-                desc += ', max_points cycled over {0,5,8,40}'
+                desc += ', max_points cycled over {0,5,8,40,199}'
             if kind == 'bigpolygon':
                 desc = 'two members of the >8190-vertex family (8190 vertices plain; 8200 vertices with repetition and property), max_points {0,5}'
         else:
@@ -281,12 +281,12 @@ def d2_plan(tier, fam):
             for n, m in enumerate(members):
                 for cfg in cfgs:
                     for mp in (MPS if polyish else (0,)):
-                        if kind == 'bigpolygon' and mp in (5, 40):
+                        if kind == 'bigpolygon' and mp in (5, 40, 199):
                             continue
                         ids.append(cid(m, cfg, mp))
             desc = 'every member of the %s family (%s) x %s library configurations%s' % (
                 kind, dimtxt, 'all 12' if kind != 'bigpolygon' else '2',
-                ' x max_points {0,5,8,40}' if polyish and kind != 'bigpolygon' else (' x max_points {0,8}' if kind == 'bigpolygon' else ''))
+                ' x max_points {0,5,8,40,199}' if polyish and kind != 'bigpolygon' else (' x max_points {0,8}' if kind == 'bigpolygon' else ''))
         plans.append(('d2.' + kind, desc, ids))
     return plans
 
